@@ -160,13 +160,14 @@ SPECS = {
      "entries": [{"entry": e, "label": "%s.op%d" % (e, o), "fix": {"op#0": o}} for e in ("vh_c02_reopen_ro", "vh_c02_reopen_rw") for o in range(43)]}]},
  "C03": {
   "explanation": "Full stack (front-end + backend/hdf5 + h5x) on the HDF5 model: bounded create/delete histories per container kind, checked after every step and after close+reopen against a reference list in creation order.",
-  "bounds": {"quick": {"history_steps": 3, "names": ["a", "b", "UUID-shaped", "", "a/b", "1 symbolic char in {a,b,c,/}", "(thorough: also 'A', 'a ', '..')"], "containers": 11},
+  "bounds": {"quick": {"history_steps": 3, "names": ["a", "b", "UUID-shaped", "", "a/b", "1 symbolic char in {a,b,c,/}", "(thorough: also 'A', 'a ', '..')"], "containers": "11 + 2 link containers (tag references, group members)"},
              "thorough": {"history_steps": 4}},
-  "outside": ["names longer than the candidates / non-ASCII UTF-8", "HDF5's own creation-order index (modelled)", "features, tag references, group members, entity sources as containers (covered by C04/C02 harnesses)"],
+  "outside": ["names longer than the candidates / non-ASCII UTF-8", "HDF5's own creation-order index (modelled)", "features as a container (no names; covered by C04/C02 harnesses)", "multi-tag references and the other member kinds of groups (same code paths as tag references / group data arrays)", "sources attached to an entity (that API is id-based: hasSource(id), addSource(id))"],
   "assumptions": ["libhdf5 replaced by h5model", "createId replaced by a counter-based UUID generator (ids unique by construction)"],
   "harnesses": [{"file": "C03_names.cpp", "defines": {"quick": ["-DVH_STEPS=3", "-DVH_NAMES=6"], "thorough": ["-DVH_STEPS=4", "-DVH_NAMES=9"]},
      "entries": [{"entry": e} for e in ("vh_c03_blocks", "vh_c03_file_sections", "vh_c03_sub_sections", "vh_c03_properties", "vh_c03_block_sources", "vh_c03_sub_sources",
-                                         "vh_c03_data_arrays", "vh_c03_tags", "vh_c03_multi_tags", "vh_c03_groups", "vh_c03_data_frames")]}]},
+                                         "vh_c03_data_arrays", "vh_c03_tags", "vh_c03_multi_tags", "vh_c03_groups", "vh_c03_data_frames",
+                                         "vh_c03_tag_references", "vh_c03_group_members")]}]},
  "C10": {
   "explanation": "K: FormatVersion operators with six/nine symbolic 32-bit ints (complete over all 2^96 pairs). S: real File::open -> FileHDF5::FileHDF5 -> checkHeader on the HDF5 model; the file's header (format string, version triple, id) is symbolic.",
   "bounds": {"version_components": "full 32-bit range, symbolic", "modes": ["ReadOnly", "ReadWrite"], "force": [False, True], "format": ["nix", "other", "missing"], "version/id attribute": "present or missing"},
